@@ -6,7 +6,7 @@ class Prop:
     id = "C22"
     level = "exploration"
     engine = "VT+TH (sequential call histories in virtual time; a share of the runs has concurrent callers under controlled threads)"
-    th_share = 0.03
+    th_share = 0.02
     quick_runs = 200000
     thorough_runs = 3000000
     kind = "replay"
@@ -15,7 +15,7 @@ class Prop:
             "run against a real ReplaySubject and against a sequential reference model; per-observer notification logs and the exceptions raised by "
             "each call must match (an observer unsubscribed re-entrantly after the call was made but before its turn may or may not get that "
             "one notification). Distinct = (configuration, call kinds, per-observer log lengths); non-trivial = at least two notifications "
-            "delivered. 3%% of the runs use concurrent callers instead (TH engine): a producer thread emitting 1..m and 1-2 threads subscribing / "
+            "delivered. 2%% of the runs use concurrent callers instead (TH engine): a producer thread emitting 1..m and 1-2 threads subscribing / "
             "unsubscribing meanwhile, 1-3 forced pre-emptions in the subject's code; every subscriber must see a contiguous run of values that "
             "starts at a value current (retained) at some moment of its subscribe() call, and the terminal notification if it stayed.") % ("; every buffer_size in {0..4, None}, windows shorter/longer/equal to ages, virtual-time advances, scheduler drained after each call" if "replay" == "replay" else "")
     assumptions = ["re-entrant emission is excluded (call order is undefined for it)", "after dispose(), subscribing surfaces DisposedException: raised from subscribe() without an error handler, delivered to on_error with one"]
